@@ -36,4 +36,38 @@ def handle : List Sx → String
     | _, _, _, _, _ => "bad state"
   | _ => "bad shape"
 
+/-- `( runt PRE OUTCOME POST K2 ELAPSED_US LIMIT_MS NID )`: a run whose wall-clock limit can really be reached.
+`K2` is the number of single steps after which an identically built state equals POST (-1: never). The clock of
+the model is abstract: the reported run must be the run of SOME clock, namely the one that is past the limit
+exactly at iteration `K2` (for TimeLimitExceeded) or never (for the other outcomes). -/
+def handleTimed : List Sx → String
+  | [pre, .atom "PANIC", _, _, _, _, _] =>
+    match decState pre with
+    | some _ => "no MISMATCH model= (no panic) PROPFAIL C01 implementation panicked PROPFAIL C02 run panicked"
+    | none => "bad state"
+  | [pre, .atom oc, post, k2, el, lim, nid] =>
+    match decState pre, decState post, decInt k2, decNat el, decNat lim, decNat nid with
+    | some pre, some post, some k2, some el, some lim, some nid =>
+      let pre := { pre with nextId := nid }
+      let k2 : Int := k2.toInt
+      let L : Int := pre.cfg.evalPushLimit.toInt
+      if k2 < 0 then "no PROPFAIL C02 the state left by run (" ++ oc ++ ") is not reached by single-stepping the same program"
+      else
+      let k := k2.toNat
+      let clock : Nat → Bool := if oc == "timeLimit" then (fun j => j == k) else (fun _ => false)
+      let (mo, mk, ms) := run fullExt ExecDrv.zeroOracle clock pre
+      let mm := if outcomeStr mo == oc && mk == k && encState ms == encState post then ""
+        else " MISMATCH model= " ++ outcomeStr mo ++ " " ++ toString mk ++ " " ++ encState ms
+      let pf :=
+        if oc == "timeLimit" && el < lim * 1000 then
+          " PROPFAIL C02 TimeLimitExceeded after " ++ toString el ++ " us, before the limit of " ++ toString lim ++ " ms had passed"
+        else if oc == "timeLimit" && (k2 > L) then " PROPFAIL C02 TimeLimitExceeded after the step budget was used up"
+        else if oc != "timeLimit" && lim == 0 then " PROPFAIL C02 a run with a time limit of 0 ms reported " ++ oc
+        else if oc != "timeLimit" && el > lim * 1000 + 1500000 then
+          " PROPFAIL C02 " ++ oc ++ " although the run took " ++ toString el ++ " us under a limit of " ++ toString lim ++ " ms"
+        else ""
+      if mm == "" && pf == "" then (if k > 0 then "ok N" else "ok T") else "no" ++ mm ++ pf
+    | _, _, _, _, _, _ => "bad state"
+  | _ => "bad shape"
+
 end RunDrv
